@@ -292,7 +292,12 @@ def san_env(halt=False):
     env["ASAN_OPTIONS"] = (
         "detect_leaks=1:leak_check_at_exit=0:detect_stack_use_after_return=1:"
         "halt_on_error=%d:abort_on_error=0:allocator_may_return_null=1:"
-        "malloc_context_size=12:print_legend=0:handle_abort=0" % (1 if halt else 0))
+        "malloc_context_size=12:print_legend=0:handle_abort=0:"
+        # fresh heap memory is filled with a pattern instead of whatever the
+        # allocator hands out (mostly zeros): a read of memory nobody
+        # initialised then shows as a wrong value in the model comparisons,
+        # not only under memcheck
+        "max_malloc_fill_size=1048576:malloc_fill_byte=165" % (1 if halt else 0))
     env["UBSAN_OPTIONS"] = "print_stacktrace=1:halt_on_error=0"
     env["LSAN_OPTIONS"] = "print_suppressions=0"
     return env
